@@ -13,6 +13,14 @@ TRUSTED_BASE_COMMON = [
 
 FSM_CORR = ["corr/FsmCorr.v"]
 
+
+def P(props, suites, technique, level_text, level_note, corr=None, level="proof", assumptions=None, explanation="", trusted=None):
+    return {"props": props, "corr": corr or FSM_CORR, "level": level, "suites": [{"name": n} if isinstance(n, str) else n for n in suites],
+            "technique": technique, "level_text": level_text, "level_note": level_note,
+            "assumptions": assumptions or [], "explanation": explanation, "trusted_base": trusted or []}
+
+GO_SM = "go-statemachine semantics (one event planned at a time, handler started after Plan, triggers appended at the queue tail) are modelled in Machine.v and validated by correspondence, not verified"
+
 PROPS = {
     "C03": {
         "props": "props/C03.v",
@@ -30,6 +38,37 @@ PROPS = {
         "explanation": "theorems over the transition table regenerated from channels_fsm.go; the table and go-statemachine "
                        "semantics are tied to the running code by an exhaustive (status x record variant x event) differential",
     },
+    "C02": P("props/C02.v", ["fsmtable", "fsmhist"],
+        "Coq theorem over every schedule of the go-statemachine model (terminal record frozen, every later event dropped) on the finality list regenerated from channels_fsm.go; exhaustive terminal-status differential and direct frozen-record monitor on the real channels.Channels",
+        "Machine-checked proof for all schedules (sends, plans, handler completions, reopen) that a record in Completed/Failed/Cancelled never changes and produces no announcement, write, cleanup or un-protect. Tied to the code by the regenerated finality list and by running every event against every seeded terminal record.",
+        GO_SM + "; manager-level handlers (restart no-op, refused restart requests) are covered by the node suites",
+        assumptions=["a reopened datastore yields a fresh machine on the stored record (m_init)"]),
+    "C07": P("props/C07.v", ["fsmreports"],
+        "Coq theorems (invariant by induction over report histories with restarts; closed payload formula) over Caches.fire and the generated FSM actions; correspondence of the real Channels.DataQueued/DataSent/DataReceived incl. cache contents against the model; direct totals monitors",
+        "Machine-checked proof for every direction, block function and well-shaped history with process restarts anywhere: byte total = summed size of unique blocks at distinct reported positions (mod 2^64), index = highest position; replays and non-unique blocks never count; for arbitrary report lists total = sum of reports that advanced the lazily seeded mark.",
+        "Sequential reporters (the concurrent CAS clause is validated by the race-stress suite, not proved); atomicity of Go's CompareAndSwapInt64/AddUint64 assumed; crash points are between reports (C07's quantifier)",
+        corr=["corr/CacheCorr.v"]),
+    "C08": P("props/C08.v", ["fsmreports"],
+        "Coq theorems over Caches.fire/set_limit (pause iff the advancing report brings the limited total to or past a non-zero limit; cache and store agree; restart re-seeds) ; enumerated limit boundaries (every prefix sum -1/0/+1, restart between reports) against the real Channels",
+        "Machine-checked proof of the pause rule at cache/FSM level for all reports and limits, with the cache-consistency invariant preserved by reports, SetDataLimit and restarts. Manager-level resume/reject rules are in the node suites.",
+        "Sequential reporters; 'no further payload while paused' is graphsync's contract (assumed, see C01)",
+        corr=["corr/CacheCorr.v"]),
+    "C09": P("props/C09.v", ["fsmcleanup", "fsmtable", "fsmhist"],
+        "Coq theorems over every schedule of the go-statemachine model: cleanup runs = handler starts, handler starts only on entering a cleanup status or CompleteCleanupOnRestart, terminal only via cleanup, endings settle; regenerated entry function and table; exhaustive gated-handler product on the real channels.Channels",
+        "Machine-checked proof for all schedules at machine level; the cleanup entry function body and the table are regenerated from channels_fsm.go each run; the real FSM is driven through every (status x ending x event queued while the cleanup handler is held) case.",
+        GO_SM + "; 'settles' assumes the handler goroutine is scheduled; closing via the manager/transport is covered by node/transport suites"),
+    "C11": P("props/C11.v", ["fsmpause", "fsmtable"],
+        "Coq theorems over the generated actions (only a party's own pause/resume events write its flag; flags follow actions where valid; invalid requests leave the record unchanged; derived views); exhaustive pause/resume interleavings on the real channels.Channels",
+        "Machine-checked proof at FSM level for every record and event, with all pause/resume interleavings up to the tier's length enumerated against the real code in every status.",
+        "manager-level effects (transport pause/resume, announcement messages, stay-paused rule) are covered by the node suites"),
+    "C17": P("props/C17.v", ["fsmhist", "fsmcleanup"],
+        "Coq theorem over every schedule: announcements = applied events in plan order, snapshots chain by Fsm.apply, written records = announced records; correspondence compares every notification (event, full view) of the real notifier with the model",
+        "Machine-checked proof at machine level; subscriber windows (subscribe/unsubscribe, per-transfer filters) are covered by the node suite.",
+        GO_SM + "; the notifier FIFO goroutine of go-statemachine is assumed to preserve order (validated)"),
+    "C19": P("props/C19.v", ["fsmtable", "fsmhist"],
+        "Coq theorems: accessor views of well-formed records agree (pull, channel id, other peer), well-formedness preserved by every event, voucher logs append-only with exactly the NewVoucher/NewVoucherResult entries, 'last' accessors; every state the harness sees goes through all real accessors under recover",
+        "Machine-checked proof at FSM level plus a totality monitor on the implementation: every accessor of every observed state is called under recover and compared with the model view.",
+        "node-level recording rules (voucher recorded only after a successful send, etc.) are covered by the node suites"),
 }
 
 NOT_APPLICABLE = {}
